@@ -320,6 +320,10 @@ def gen_case_plain(rng, kind=None, clocks=False):
             for tok in toks:
                 t += rng.choice([0, 1, 1, 2, 4, 8, 12])
                 d.append([tok, t])
+            if clocks and len(d) >= 3 and rng.random() < 0.15:
+                # events not in time order: the weight is a function of |t_q - t_p| (the windows stay positional)
+                i = rng.randrange(len(d) - 1)
+                d[i][1], d[i + 1][1] = d[i + 1][1], d[i][1]
             docs.append(d)
         case["docs"] = docs
         if clocks:
